@@ -427,3 +427,67 @@ Proof.
   rewrite (recv_size_src_eq s (option_map S (resolve (maxsize s) m))) by (apply rc_size_ok; exact Hm).
   destruct (recv_size_lim s _) as [[recvd| | |[]] s']; reflexivity.
 Qed.
+
+(* ---- NetstringSocket assembled from the generated pieces --------------------------------------------- *)
+Definition unwrap (r : iter unit bytes unit) : bytes := match r with ICont b => b | _ => [] end.
+
+Definition read_ns_src (x : ns) (m : option nat) : outcome * ns :=
+  let '(mx, msg_mx) := match m with
+                       | None => (ns_maxsize x, ns_msgsize_maxsize x)
+                       | Some k => (k, Z.to_nat (src_ns_msgsize (Z.of_nat k)))
+                       end in
+  match recv_until_dl (ns_dl x) (ns_bs x) src_ns_delim (MVal msg_mx) false with
+  | (OBytes size_prefix, s1) =>
+      match py_int size_prefix with                          (* size = int(size_prefix) *)
+      | None => (OExn NetstringInvalidSize, with_bs x s1)
+      | Some size =>
+          if src_ns_too_long size (Z.of_nat mx) then (OExn NetstringMessageTooLong, with_bs x s1)
+          else
+            let consumed := src_ns_consumed0 size_prefix in
+            match recv_size s1 (Z.to_nat size) with          (* payload = self.bsock.recv_size(size) *)
+            | (OBytes payload, s2) =>
+                let consumed := unwrap (src_ns_consumed1 consumed payload) in
+                match recv s2 1 with                         (* trailer = self.bsock.recv(1) *)
+                | (OBytes t, s3) =>
+                    if src_ns_trailer_bad t then (OExn NetstringProtocolError, with_bs x s3)
+                    else (OBytes payload, with_bs x s3)
+                | (out, s3) => (out, with_bs x (set_recv s3 (unwrap (src_ns_unread consumed (rbuf s3))) (nt s3)))
+                end
+            | (out, s2) => (out, with_bs x (set_recv s2 (unwrap (src_ns_unread consumed (rbuf s2))) (nt s2)))
+            end
+      end
+  | (out, s1) => (out, with_bs x s1)
+  end.
+
+Lemma src_ns_msgsize_eq k : Z.to_nat (src_ns_msgsize (Z.of_nat k)) = calc_msgsize_maxsize k.
+Proof. unfold src_ns_msgsize, calc_msgsize_maxsize, py_str, py_len. rewrite Nat2Z.id. lia. Qed.
+
+Theorem read_ns_src_eq x m : read_ns_src x m = read_ns x m.
+Proof.
+  unfold read_ns_src, read_ns. change src_ns_delim with [58%N].
+  destruct m as [k|]; [rewrite src_ns_msgsize_eq|]; cbv beta iota;
+    (destruct (recv_until_dl _ _ _ _ _) as [[sp| | |e] s1]; try reflexivity;
+     destruct (py_int sp) as [size|]; [|reflexivity];
+     unfold src_ns_too_long; rewrite Z.gtb_ltb;
+     match goal with |- context [Z.ltb ?a size] => destruct (Z.ltb a size); [reflexivity|] end;
+     cbv zeta; unfold src_ns_consumed0, src_ns_consumed1, src_ns_unread, src_ns_trailer_bad, unwrap;
+     destruct (recv_size s1 (Z.to_nat size)) as [[payload| | |e] s2]; try reflexivity;
+     destruct (recv s2 1) as [[t| | |e] s3]; try reflexivity;
+     try (destruct (bytes_eqb t [44%N]); reflexivity); rewrite <- !app_assoc; reflexivity).
+Qed.
+
+Definition write_ns_src (x : ns) (payload : bytes) : outcome * ns :=
+  if src_ns_write_too_long payload (Z.of_nat (ns_maxsize x)) then (OExn NetstringMessageTooLong, x)
+  else match send (ns_bs x) (src_ns_frame payload) with
+       | (ONat _, s') => (ONone, with_bs x s')
+       | (out, s') => (out, with_bs x s')
+       end.
+
+Theorem write_ns_src_eq x p : write_ns_src x p = write_ns x p.
+Proof.
+  unfold write_ns_src, write_ns, src_ns_write_too_long, src_ns_frame, py_len, py_str.
+  rewrite gtb_nat, Nat2Z.id.
+  replace (((dec (length p) ++ [58%N]) ++ p) ++ [44%N]) with (dec (length p) ++ 58%N :: p ++ [44%N])
+    by (rewrite <- !app_assoc; reflexivity).
+  reflexivity.
+Qed.
